@@ -724,7 +724,7 @@ class Emitter:
 
 
 COQ_TYPES = {"i32": "Z", "u32": "Z", "i64": "Z", "u64": "Z", "usize": "Z", "isize": "Z", "InlineInt": "Z", "BigInt": "Z",
-             "bool": "bool", "Value": "value", "StarlarkIntRef": "rep", "StarlarkInt": "rep", "StarlarkHashValue": "Z"}
+             "bool": "bool", "Value": "value", "StarlarkIntRef": "rep", "StarlarkInt": "rep", "StarlarkHashValue": "Z", "Range": "range"}
 
 
 def coq_type(t, cfg):
